@@ -45,13 +45,13 @@ CLASS_FLOORS = {"removed>=1": 0.2}
 @st.composite
 def stopping_cases(draw, max_inner=9):
     g = draw(games.stopping_games(min_inner=2, max_inner=max_inner))
-    return dict(kind="game", game=g, prune=draw(st.booleans()))
+    return dict(kind="game", game=g, prune=games.coin(draw))
 
 
 @st.composite
 def board_cases(draw, max_len=3, max_wid=3):
     b = draw(boards.boards(max_len=max_len, max_wid=max_wid))
-    return dict(kind="board", board=b, variant=draw(st.sampled_from("abc")), prune=draw(st.booleans()))
+    return dict(kind="board", board=b, variant=draw(st.sampled_from("abc")), prune=games.coin(draw))
 
 
 def example_cases():
